@@ -11,7 +11,7 @@ From SV Require Import Proofs.TcpSendBase Proofs.TcpSendInv Proofs.TcpSendAck Pr
   Proofs.TcpSendApi Proofs.TcpSendDisp Proofs.TcpSendDisp2 Proofs.TcpSendDisp3 Proofs.TcpSendTrace
   Proofs.TcpSendReply.
 From SV Require Proofs.TcpLiveProofs.
-From SV Require Import Proofs.TcpNetBase Proofs.TcpNetContract.
+From SV Require Import Proofs.TcpNetBase Proofs.TcpNetFrame Proofs.TcpNetContract.
 
 (* A keep-alive probe (RFC 1122 4.2.3.6: one garbage octet at SND.NXT - 1) is sent only for a
    sequence number that is already acknowledged.  C05's analysis: true when the MTU leaves room for
@@ -20,10 +20,10 @@ From SV Require Import Proofs.TcpNetBase Proofs.TcpNetContract.
    sender ghost, which does not exist yet.  C01 needs it for a real reason: a zero octet at an
    unacknowledged sequence number is inside the receiver's window. *)
 Definition c05_ka_bound : Prop :=
-  forall cx g s e s' res tags p s1,
+  forall cx g s e s' p tags,
     inv g s -> ctx_ok cx -> mtu_ok cx -> TcpLiveProofs.tcp_live_inv s ->
-    tcp_dispatch cx s e = Ok (s', res, tags) -> disp_pkt res = Some p ->
-    frame s s1 -> is_keep_alive_seg s1 cx (snd p) ->
+    tcp_dispatch cx s e = Ok (s', DSent p, tags) ->
+    In 245 tags ->                      (* dispatch took its keep-alive branch (is_keep_alive) *)
     g_phase g <> PSyn /\ exists u, 0 <= u < g_una g /\ r_seq_number (snd p) = sq (g_iss g + u).
 
 (* ---------------------------------------------------------------------------------------- *)
@@ -213,45 +213,41 @@ Section Dispatch.
     all: destruct F1 as (E1 & E2 & E3 & E4 & E5).
     all: (split; [left; apply tx_same_fields; try assumption; [intros; discriminate | discriminate]|]).
     all: intros p Hp.
-    all: assert (Hdp : disp_pkt res = Some p) by (destruct res; cbn in *; congruence).
-    all: assert (Hseg : exists zwp kab, seg_ok cx g1 s1 (snd p) zwp kab)
-           by (destruct res; cbn [disp_pkt] in Hdp; try discriminate; inversion Hdp; subst;
-               destruct Hres as (zwp & kab & Hok & _); eauto).
-    all: destruct Hseg as (zwp & kab & (Hka & Hnka)).
-    all: pose proof (dispatch_segments _ _ _ _ _ _ _ p Hinv Hcx H Hdp) as (Hclaims & _); cbv zeta in Hclaims.
+    all: assert (Hres' : res = DSent p) by (destruct res; cbn in Hp; try discriminate; congruence).
+    all: subst res.
     all: assert (Eu : forall gx, g_acked gx = g_acked g -> g_phase gx = g_phase g -> g_una gx = g_una g)
            by (intros gx A B; unfold g_una; rewrite A, B; reflexivity).
     all: unfold tx_pkt_ok, carries; cbv zeta.
-    all: assert (Hkacase : forall s1', frame s s1' -> is_keep_alive_seg s1' cx (snd p) ->
-                  l_len (r_payload (snd p)) = 1 /\ r_control (snd p) = CNone /\
-                  g_phase g <> PSyn /\ exists u, 0 <= u < g_una g /\ r_seq_number (snd p) = sq (g_iss g + u))
-           by (intros s1' Hfr' Hk; pose proof Hk as (Kp & Kc & _);
-               destruct (ka _ _ _ _ _ _ _ _ _ Hinv Hcx Hmtu Hlive H Hdp Hfr' Hk) as (Kph & Ku);
-               split; [rewrite Kp; reflexivity | split; [exact Kc | split; [exact Kph | exact Ku]]]).
-    all: destruct kab.
-    all: try (destruct (Hka eq_refl) as (K1 & K2 & K3 & K4 & _);
-              destruct (Hkacase s1 Hfr (conj K1 (conj K2 (conj K3 K4)))) as (Kn & Kc & Kph & (u & Hu & Hsq));
+    all: destruct (in_dec Z.eq_dec 245 tags) as [Hk | Hnk].
+    all: try (destruct (ka _ _ _ _ _ _ _ Hinv Hcx Hmtu Hlive H Hk) as (Kph & (u & Hu & Hsq));
+              destruct Hres as (zwp & kab & (Hkab & _) & _ & _ & _ & Htag);
+              destruct (dispatch_sent_tags _ _ _ _ _ _ H) as (kam & Hkam);
+              assert (Hkm : kam = true)
+                by (destruct kam; [reflexivity|]; destruct (Hkam 245 Hk) as [X|X]; lia);
+              subst kam;
+              assert (Hkb : kab = true)
+                by (destruct kab; [reflexivity|]; destruct (Hkam 246 Htag) as [X|X]; lia);
+              destruct (Hkab Hkb) as (Kp & Kc & _);
+              rewrite Kp; change (l_len [0]) with 1;
               split; [lia|]; split; [intros Ec; congruence|]; split; [intros Ec; congruence|];
               intros _; split; [congruence|]; right;
-              split; [exact Kn|]; split; [exact Kc|]; exists u;
+              unfold tx_ka_seg; rewrite Kp; change (l_len [0]) with 1;
+              split; [reflexivity|]; split; [exact Kc|]; exists u;
               rewrite (Eu _ E4 E5), E1; split; [exact Hu | exact Hsq]).
-    all: destruct (Hnka eq_refl) as (Hdata & _).
+    all: destruct (dispatch_sent_segments _ _ _ _ _ _ _ Hinv Hcx H Hnk) as ((Hd & Hsyn & Hrst) & _).
+    all: pose proof (dispatch_sent_phase _ _ _ _ _ _ _ Hinv Hcx H Hnk) as Hph.
     all: assert (Hn : l_len (r_payload (snd p)) <= 65535)
            by (destruct (Z.ltb_spec 0 (l_len (r_payload (snd p)))) as [Hpos|Hnp]; [|lia];
-               destruct (Hdata (or_introl Hpos)) as (_ & _ & _ & off & _ & _ & _ & _ & Hmss & _);
-               destruct (eff_mss_bounds (cx_ip_mtu cx) (s_remote_mss s1) (ts_opt s1) (ts_opt_nonneg s1)) as (_ & _ & B3);
-               pose proof (ts_opt_nonneg s1); unfold mtu_ok, wipv4_HEADER_LEN, wtcp_HEADER_LEN in *; lia).
+               destruct (Hd (or_introl Hpos)) as (k & _ & _ & _ & _ & _ & Hmss & _);
+               destruct (Hmss Hpos) as (_ & Hmtu');
+               destruct Hres as (zwp & kab & _ & Hip & _); rewrite Hip in Hmtu';
+               pose proof (repr_header_len_ge (snd p)); unfold repr_buffer_len in Hmtu';
+               unfold mtu_ok, wipv4_HEADER_LEN, wtcp_HEADER_LEN in *; lia).
     all: split; [exact Hn|].
-    all: destruct Hclaims as [(s1' & Hfr' & Hk) | (Hd & Hsyn & Hrst)].
-    all: try (destruct (Hkacase s1' Hfr' Hk) as (Kn & Kc & Kph & (u & Hu & Hsq));
-              split; [intros Ec; congruence|]; split; [intros Ec; congruence|];
-              intros _; split; [congruence|]; right;
-              split; [exact Kn|]; split; [exact Kc|]; exists u;
-              rewrite (Eu _ E4 E5), E1; split; [exact Hu | exact Hsq]).
     all: split; [intros Ec; destruct (Hsyn Ec) as (N0 & Sq & _); rewrite E1; split; assumption|].
     all: split; [exact Hrst|].
-    all: intros Hcar; destruct (Hdata Hcar) as (Hph & _);
-         split; [rewrite E5, <- G5, Hph; discriminate|]; left;
+    all: intros Hcar;
+         split; [rewrite E5, (Hph Hcar); discriminate|]; left;
          destruct (Hd Hcar) as (k & Hsq & Hak & Hlen & Hpay & _ & _ & _ & Hfin);
          unfold tx_stream_seg; cbv zeta; exists k; rewrite E1, E2, E3;
          destruct Hinv as ((_ & _ & Ha0 & _) & _);
